@@ -58,7 +58,7 @@ def fault_scripts(rnd, quick):
         mb = mbase(rnd, head)
         for op in ops:
             for k in range(1, n + 5):
-                for kind in (1, 2):
+                for kind in (1, 2, 4):
                     sc += mb + [head, 'store %d %s' % (n, ' '.join(map(str, img))),
                            'fault %d %d' % (k, kind), op, 'reopen', 'validate', 'fetch']
         yield sc
